@@ -16,9 +16,12 @@
      every instruction fails exactly when the Python code raises (stack underflow, ill-typed operand or
      literal, mutez overflow, FAILWITH, undeclared sections, network access without a shell);
      a cell that does not parse / match fails before executing anything ([CBad], invalid types).
+   * DIP { .. } and IF_NONE { .. } { .. } with nested bodies (failures at positions inside them).
    Not modelled: stdout text, debug mode (re-raises by design), annotations, n-ary pair literals,
-   non-empty list literals, big_map *values* that themselves contain a big_map (pytezos' type check
-   tests the key type by mistake; Tezos forbids them; the model's UPDATE rejects them). *)
+   non-empty list literals, the other control instructions, PATCH-able context fields, big_map *values*
+   that themselves contain a big_map (pytezos' type check tests the key type by mistake; Tezos forbids
+   them; the model's UPDATE rejects them), and nested DIPs that reach below the bottom of the stack
+   (pytezos' stack.protect only checks the total length; see [mexec]). *)
 From Coq Require Import List ZArith Bool Arith Lia.
 From Coq.Strings Require Import Byte.
 From Coq Require Import String.
@@ -193,7 +196,9 @@ Inductive minstr :=
 | MDrop | MDup | MSwap | MPair | MUnpair | MCar | MCdr
 | MSome | MNone (t : ty) | MNil (t : ty) | MUnit
 | MEmptyBigMap (k v : ty) | MUpdate | MGet | MGetAndUpdate
-| MAdd | MFailwith.
+| MAdd | MFailwith
+| MDip (body : list minstr)            (* DIP { body } *)
+| MIfNone (bt bf : list minstr).       (* IF_NONE { bt } { bf } *)
 
 Record ctxrec := mkC {
   c_param : option ty;            (* parameter_expr *)
@@ -638,16 +643,46 @@ Definition mstep (i : minstr) (s : session) : option session :=
       | _ => None
       end
   | MFailwith => None
+  | MDip _ | MIfNone _ _ => None   (* instructions with nested code: see [mexec] *)
   end.
 
 (* outcome of running code: finished, or raised leaving the contexts as they were at that moment *)
 Inductive outcome (A : Type) := Done (a : A) | Failed (at_failure : session).
 Arguments Done {A} a. Arguments Failed {A} at_failure.
 
+(* instructions with nested code. DIP hides the top element while the body runs (stack.protect(1));
+   modelled for the case that the body finds its operands on the visible part of the stack — pytezos'
+   protect() only checks the total length, so `DIP { DIP { PUSH .. } }` on a one-element stack succeeds
+   there (Tezos rejects it) while the model fails: outside the modelled domain. *)
+Fixpoint mexec (i : minstr) (s : session) {struct i} : outcome session :=
+  let fix go (l : list minstr) (s : session) {struct l} : outcome session :=
+      match l with
+      | [] => Done s
+      | x :: r => match mexec x s with Done s' => go r s' | Failed f => Failed f end
+      end in
+  match i with
+  | MDip body =>
+      match s_stack s with
+      | a :: r =>
+          match go body (with_stack s r) with
+          | Done s' => Done (with_stack s' (a :: s_stack s'))
+          | Failed f => Failed f
+          end
+      | [] => Failed s
+      end
+  | MIfNone bt bf =>
+      match s_stack s with
+      | GNone _ :: r => go bt (with_stack s r)
+      | GSome a :: r => go bf (with_stack s (a :: r))
+      | _ => Failed s
+      end
+  | _ => match mstep i s with Some s' => Done s' | None => Failed s end
+  end.
+
 Fixpoint mrun (l : list minstr) (s : session) : outcome session :=
   match l with
   | [] => Done s
-  | i :: r => match mstep i s with Some s' => mrun r s' | None => Failed s end
+  | i :: r => match mexec i s with Done s' => mrun r s' | Failed f => Failed f end
   end.
 
 (* ------------------------------------------------------------------------------------------ *)
@@ -698,7 +733,7 @@ Definition commit (s : session) : option (list diff * value * value * session) :
 
 Definition istep (i : instr) (s : session) : outcome (session * list output) :=
   match i with
-  | IM m => match mstep m s with Some s' => Done (s', []) | None => Failed s end
+  | IM m => match mexec m s with Done s' => Done (s', []) | Failed f => Failed f end
   | IParameter t => Done (with_ctx s (set_param (s_ctx s) t), [])
   | IStorage t => Done (with_ctx s (set_storage (s_ctx s) t), [])
   | ICode b => Done (with_ctx s (set_code (s_ctx s) b), [])
@@ -757,10 +792,12 @@ Fixpoint irun (l : list instr) (s : session) (acc : list output) : outcome (sess
    or a sequence of instructions *)
 Inductive cell := CBad | CCrash | CCode (l : list instr).
 
-Definition minstr_valid (m : minstr) : bool :=
+Fixpoint minstr_valid (m : minstr) : bool :=
   match m with
   | MPush t _ | MNone t | MNil t => valid_ty t
   | MEmptyBigMap k v => valid_ty k && valid_ty v
+  | MDip b => forallb minstr_valid b
+  | MIfNone bt bf => forallb minstr_valid bt && forallb minstr_valid bf
   | _ => true
   end.
 
@@ -890,7 +927,13 @@ Definition render_output (o : output) : node :=
   end.
 
 (* the code section is shown by the index the harness gave to that body *)
-Definition minstr_eqb (a b : minstr) : bool :=
+Fixpoint minstr_eqb (a b : minstr) {struct a} : bool :=
+  let fix go (l1 l2 : list minstr) {struct l1} : bool :=
+      match l1, l2 with
+      | [], [] => true
+      | x :: r1, y :: r2 => minstr_eqb x y && go r1 r2
+      | _, _ => false
+      end in
   match a, b with
   | MPush t1 l1, MPush t2 l2 => ty_eqb t1 t2 && node_eqb l1 l2
   | MDrop, MDrop | MDup, MDup | MSwap, MSwap | MPair, MPair | MUnpair, MUnpair | MCar, MCar
@@ -898,6 +941,8 @@ Definition minstr_eqb (a b : minstr) : bool :=
   | MGetAndUpdate, MGetAndUpdate | MAdd, MAdd | MFailwith, MFailwith => true
   | MNone t1, MNone t2 | MNil t1, MNil t2 => ty_eqb t1 t2
   | MEmptyBigMap k1 v1, MEmptyBigMap k2 v2 => ty_eqb k1 k2 && ty_eqb v1 v2
+  | MDip b1, MDip b2 => go b1 b2
+  | MIfNone t1 f1, MIfNone t2 f2 => go t1 t2 && go f1 f2
   | _, _ => false
   end.
 
